@@ -18,6 +18,18 @@ CHECKS = {
             'clang 14 AST/CFG of the instantiated templates; rule code in checks/C05*.py; sufficiency of one border '
             'per visit and counter wrap are not decided',
             'DESIGN.md section 5, C05'),
+ 'C02': ('finite order abstraction of the comparison sites, abstract evaluation of the key-slicing sites, width rule for '
+         'key lengths, lookup / writer re-validation typestates (all shared with C18, C03, C01)',
+         'Decides ONLY the key-handling and status clauses whose truth is in the shape of the code: every comparison '
+         'of (8-byte slice, length) pairs implements the one bytewise order with a proper prefix first, for zero bytes, '
+         'keys differing only in length and every slice boundary (R-CMP, exhaustive over the finite abstraction; '
+         'R-USE); every API entry cuts a key into (slice, length) identically for sizes 0..8 and > 8 (R-SLICE); key '
+         'lengths up to 30 KiB reach comparisons at full width (R-NARROW); the leaf lookup examines one permutation '
+         'snapshot (R-LOOKUP); put / remove act on the entry or absence they re-looked-up under the lock (R-WUL). The '
+         'property as a whole - equality with an ordered map over all operation sequences - is input/output '
+         'arithmetic and is NOT decided.',
+         'clang 14 AST/CFG; zero-padded stored slices; memcmp compares unsigned bytes',
+         'DESIGN.md section 5, C02 and section 13.8'),
  'C03': ('guard-dominance dataflow over (key, endpoint) pairs with call-site requirement summaries; validation '
          'typestate; finite abstract execution of check_empty_scan_range against the documented table',
          'Decides on every CFG path of the scan family that the key of an INF endpoint is never used (R-INF), that '
@@ -182,9 +194,6 @@ CHECKS = {
 }
 
 NOT_APPLICABLE = {
-    'C02': 'pure input/output arithmetic over all operation sequences and byte strings (which child, which rank, '
-           'which entries move in a split): no pairing/ordering/ownership shape decides it; its two structural '
-           'sub-facts (one comparison order, atomic permutation publication) are claimed under C18 and C19',
 }
 
 PENDING_REASON = 'not claimed yet: the static rule set for this property (DESIGN.md section 5) is not built/armed ' \
